@@ -65,37 +65,74 @@ def is_protect_call(e):
     return isinstance(e, ast.Call) and call_name(e) == 'protect' and len(e.args) == 1
 
 
-def protected(e, fa, depth=0):
-    """Every data leaf of the emitted text is wrapped in protect()."""
-    if depth > 6:
+def protected_list(name, fa, depth, trusted):
+    """The list bound to `name` holds only protected cells: every definition is an empty list, a display or a comprehension of
+    protected cells, and every append to it in the function adds a protected cell."""
+    ds = fa.defs(name)
+    if not ds:
         return False
+    for d, v in ds:
+        if v is None:
+            return False
+        if isinstance(v, ast.Call) and call_name(v) == 'list' and not v.args:
+            continue
+        if isinstance(v, ast.List):
+            if all(protected(x, fa, depth + 1, trusted) for x in v.elts):
+                continue
+            return False
+        if isinstance(v, (ast.ListComp, ast.GeneratorExp)):
+            if protected(v.elt, fa, depth + 1, trusted):
+                continue
+            return False
+        return False
+    for c in walk_local(fa.node):
+        if isinstance(c, ast.Call) and isinstance(c.func, ast.Attribute) and isinstance(c.func.value, ast.Name) \
+                and c.func.value.id == name.id:
+            if c.func.attr == 'append' and len(c.args) == 1:
+                if not protected(c.args[0], fa, depth + 1, trusted):
+                    return False
+            elif c.func.attr in ('extend', 'insert'):
+                return False
+        if isinstance(c, ast.AugAssign) and isinstance(c.target, ast.Name) and c.target.id == name.id:
+            return False
+    return True
+
+
+def protected(e, fa, depth=0, trusted=frozenset()):
+    """Every data leaf of the emitted text is wrapped in protect()."""
+    if depth > 8:
+        return False
+    if isinstance(e, ast.Name) and e.id in trusted:
+        return True
     if is_protect_call(e):
         return True
     if isinstance(e, ast.Constant) and isinstance(e.value, str):
         return True
     if isinstance(e, ast.BinOp) and isinstance(e.op, ast.Add):
-        return protected(e.left, fa, depth + 1) and protected(e.right, fa, depth + 1)
+        return protected(e.left, fa, depth + 1, trusted) and protected(e.right, fa, depth + 1, trusted)
     if isinstance(e, ast.Call) and call_name(e) == 'join' and isinstance(e.func, ast.Attribute) \
             and isinstance(e.func.value, ast.Constant) and len(e.args) == 1:
         a = e.args[0]
         if isinstance(a, (ast.ListComp, ast.GeneratorExp)):
-            return protected(a.elt, fa, depth + 1)
+            return protected(a.elt, fa, depth + 1, trusted)
         if isinstance(a, ast.Call) and call_name(a) == 'map' and len(a.args) == 2:
             return (dotted(a.args[0]) or '').endswith('protect')
+        if isinstance(a, ast.Name):
+            return protected_list(a, fa, depth + 1, trusted)
         return False
     if isinstance(e, ast.JoinedStr):
-        return all(isinstance(v, ast.Constant) or (isinstance(v, ast.FormattedValue) and protected(v.value, fa, depth + 1))
+        return all(isinstance(v, ast.Constant) or (isinstance(v, ast.FormattedValue) and protected(v.value, fa, depth + 1, trusted))
                    for v in e.values)
     if isinstance(e, ast.Call) and call_name(e) == 'format' and isinstance(e.func, ast.Attribute) \
             and isinstance(e.func.value, ast.Constant):
-        return all(protected(a, fa, depth + 1) for a in e.args) and not e.keywords
+        return all(protected(a, fa, depth + 1, trusted) for a in e.args) and not e.keywords
     if isinstance(e, ast.Name):
         ds = fa.defs(e)
         if not ds:
             return False
-        return all(v is not None and protected(v, fa, depth + 1) for d, v in ds)
+        return all(v is not None and protected(v, fa, depth + 1, trusted) for d, v in ds)
     if isinstance(e, ast.IfExp):
-        return protected(e.body, fa, depth + 1) and protected(e.orelse, fa, depth + 1)
+        return protected(e.body, fa, depth + 1, trusted) and protected(e.orelse, fa, depth + 1, trusted)
     return False
 
 
@@ -199,7 +236,7 @@ def check_protect_flow(ctx, yc):
                         forms = [(d, v) for d, v in fa.defs(x)] if isinstance(x, ast.Name) else [(c, x)]
                         for d, v in forms:
                             n_sites += 1
-                            good = v is not None and protected(v, fa)
+                            good = v is not None and protected(v, fa, 0, frozenset([sym]))
                             ctx.check('C01.PROTECT-FLOW', good, f, d if d is not None else c,
                                       'yanny.%s: cell `%s` reaches the row only through protect()'
                                       % (m, (src(v) if v is not None else src(x))[:70].replace('\n', ' ')),
